@@ -186,7 +186,7 @@ PROPS.update({
 
 PROPS.update({
     "C18": {
-        "level_text": "Model checking of the Python objects: every (class, alphabet, size, reuse history) is a state of a real object built inside embedded CPython and every obj[i], len(), list() and memoryview() read is a checked transition. Complete product of all classes with __getitem__ x sizes x EVERY integer index in [-len-2, len+1] plus +-2**62, +-2**63; every exposed cell of every buffer view compared with the logical element it stands for; explicit-state BFS to fixpoint over reuse histories of one StripedSequence ({calculate with widths 5,15,33,40, copy}: fresh / within the reserved rows / reallocating) with a fresh view fully checked after every transition; the history 'view held across a reallocating reuse' is run under valgrind (both tiers).",
+        "level_text": "Model checking of the Python objects: every (class, alphabet, size, reuse history) is a state of a real object built inside embedded CPython and every obj[i], len(), list() and memoryview() read is a checked transition. Complete product of all classes with __getitem__ x sizes x EVERY integer index in [-len-2, len+1] plus +-2**62, +-2**63; every exposed cell of every buffer view compared with the logical element it stands for; explicit-state BFS to fixpoint over reuse histories of one StripedSequence ({calculate with widths 5,15,33,40, copy}: fresh / within the reserved rows / reallocating) with a fresh view fully checked after every transition; 18 histories of {view, release, copy, calculate, scan} with views HELD across reuses (fitting the reserved rows or reallocating, on the object and on copies, DNA / protein / generic arm) run under valgrind in both tiers, every live view read in full after every operation; a reuse refused with BufferError while a view is alive must leave the view intact and succeed once the views are released.",
         "level_note": "Trusted: the logical-element models (symbol ranks, constructor cells, integer-valued scores, a 40-line f64 model of the discretised survival function), CPython's memoryview as the reader of shape/strides/format, valgrind memcheck for the stale-view history. Views are never dereferenced outside the memory the object is known to own (such cells are counted, not read). Py_buffer.len/nbytes and buffer requests other than memoryview()'s PyBUF_FULL_RO are outside the statement and not checked.",
         "technique": "bounded-exhaustive product over classes x sizes x all indices, plus explicit-state BFS by re-execution over buffer-reuse histories, against a logical-element model; one history under a memory monitor",
         "level": "model_checking",
